@@ -25,6 +25,7 @@
 import ScionTime.Proofs.CsptpCliLoop
 import ScionTime.Model.CsptpSkeleton
 import ScionTime.Props.C08Csptp
+import ScionTime.Props.C18Client
 import ScionTime.Gen.Client
 namespace ScionTime.C08CsptpCli
 open ScionTime.Wire ScionTime.Csptp ScionTime.CsptpClient ScionTime.CsptpCliLoop
@@ -604,6 +605,58 @@ theorem C08_csptp_e2e_no_measurement_from_this_listener (dl : Bool) (seq : Nat) 
     run dl seq (Loop.start seq) [] [.readErr false] = .err "read" [] :=
   ⟨C08_csptpcli_silence_never_completes dl seq evs _ _ hs rfl, by
     unfold run; rw [iter_readErr]; unfold failPath; simp⟩
+
+/-! ### end to end with a responder that fills in the timestamps (C18's formula clause through the message flow) -/
+
+/-- a Sync / Follow_Up pair as a correct server produces it for a client whose Sync left at `t0`:
+    the server's clock is ahead by `θ`, the one-way delay is `d` both ways, the TLV reports the
+    request's ingress `t0 + d + θ` plus its residence correction, and the Sync is received at
+    `origin + d − θ` plus the corrections of both response messages -/
+structure Physical (t0 d θ : Int) (e0 : Ev) (m0 m1 : Message) (tlv : ResponseTLV) : Prop where
+  c0 : C18.InI64 m0.correctionField
+  c1 : C18.InI64 m1.correctionField
+  ct : C18.InI64 tlv.requestCorrectionField
+  s1 : tlv.requestIngressTimestamp.seconds < 2^48
+  s2 : m1.timestamp.seconds < 2^48
+  fd : C18.Fits60 d
+  fθ : C18.Fits60 θ
+  ingress : C18.tsTime tlv.requestIngressTimestamp = t0 + d + θ + tlv.requestCorrectionField / 65536
+  arrival : e0.rxt = C18.tsTime m1.timestamp + d - θ + (m0.correctionField / 65536 + m1.correctionField / 65536)
+
+/-- **End to end.**  Whatever else the network delivers (older exchanges, foreign hosts, malformed
+    and truncated datagrams, duplicates), if every genuine Sync / genuine Follow_Up combination of
+    the history is physically consistent with a server ahead by `θ` behind a symmetric delay `d`,
+    then a measurement that completes reports exactly `θ` (and evaluates the mean path delay as
+    exactly `d`): the receive loop's matching (this file) composed with the evaluation's
+    exactness (`C18_client_offset_exact`). -/
+theorem C08_csptp_e2e_offset_exact (dl : Bool) (seq : Nat) (evs : List Ev) (st : Loop) (tr : List String)
+    (t0 d θ : Int) (h : run dl seq (Loop.start seq) [] evs = .ok st tr)
+    (hphys : ∀ e0 ∈ evs, ∀ e1 ∈ evs, ∀ m0 m1 tlv, GoodSync seq e0 m0 → GoodFollowUp seq e1 m1 tlv →
+      Physical t0 d θ e0 m0 m1 tlv) :
+    (report t0 st).clockOffset.toInt = θ ∧ (report t0 st).meanPathDelay.toInt = d := by
+  obtain ⟨e0, h0, e1, h1, g0, g1, hr⟩ := C08_csptpcli_offset_only_from_matching_pair dl seq evs st tr h
+  have p := hphys e0 h0 e1 h1 _ _ _ g0 g1
+  rw [(hr t0).1]
+  have := C18.C18_client_offset_exact t0 e0.rxt st.m0 st.m1 st.tlv d θ p.c0 p.c1 p.ct p.s1 p.s2 p.fd p.fθ p.ingress p.arrival
+  exact ⟨this.1, this.2.1⟩
+
+/-- non-vacuity of `Physical`: client transmit time 2023-11-14T22:13:20Z, θ = −3 ms, d = 250 µs, Sync
+    correction 1 ns; the pair completes the loop and is measured exactly -/
+def physSync : Message := { CsptpSrv.respSync 5 with correctionField := 65536 }
+def physTLV : ResponseTLV :=
+  { CsptpSrv.respTLV0 with length := 36, flagField := 0, requestIngressTimestamp := ⟨1699999999, 997250000⟩ }
+def physFollowUp : Message := { CsptpSrv.respFollowUp 5 with messageLength := 80, timestamp := ⟨1699999999, 997260000⟩ }
+def physHistory : List Ev :=
+  [.dgram (messageBytes physSync) 0 .event 1700000000000510001 true,
+   .dgram (messageBytes physFollowUp ++ responseTLVBytes physTLV) 0 .general 1700000000000600000 true]
+example : Physical 1700000000000000000 250000 (-3000000) (.dgram (messageBytes physSync) 0 .event 1700000000000510001 true)
+    physSync physFollowUp physTLV :=
+  ⟨by unfold C18.InI64; decide, by unfold C18.InI64; decide, by unfold C18.InI64; decide, by decide, by decide,
+    by unfold C18.Fits60; decide, by unfold C18.Fits60; decide, by decide, by decide⟩
+example : (run true 5 (Loop.start 5) [] physHistory).kind = "ok" ∧
+    (run true 5 (Loop.start 5) [] physHistory).state?.map (fun st => (report 1700000000000000000 st).clockOffset.toInt) = some (-3000000) ∧
+    (run true 5 (Loop.start 5) [] physHistory).state?.map (fun st => (report 1700000000000000000 st).meanPathDelay.toInt) = some 250000 := by
+  decide
 
 /-! ### instances (non-vacuity) and the shapes the live run exercises -/
 
